@@ -15,7 +15,7 @@ PRIV = {
 
 class H:
     def __init__(self, module, name, bound, functions, tier="quick", t_quick=300, t_thorough=None,
-                 optional_covers=()):
+                 optional_covers=(), unwindset=None, group="main"):
         self.module = module
         self.name = name
         self.bound = bound
@@ -24,6 +24,11 @@ class H:
         self.t_quick = t_quick
         self.t_thorough = t_thorough or max(t_quick * 4, 1200)
         self.optional_covers = set(optional_covers)
+        # per-loop unwinding bounds {"<substring of function name>.<loop number>": bound}; the global bound of the
+        # harness (#[kani::unwind]) applies to every other loop; unwinding assertions stay on for all of them
+        self.unwindset = unwindset or {}
+        # harnesses of one group share one cargo-kani invocation (and therefore one --unwindset)
+        self.group = group
 
     def in_tier(self, tier):
         return self.tier == "quick" or tier == "thorough"
@@ -41,6 +46,11 @@ PU = "src/common/protobuf_utils.rs"
 
 PROPS = {}
 
+# buffer of 8 bytes, reads of 4, streams of 8: the capacity-expansion loop never iterates; bound 1 + its unwinding
+# assertion proves that instead of unrolling 10 symbolic-size reallocations (measured: >14 GB vs 3 GB / 2 min)
+NOGROW = {"MessageBufReader::append_next_buf.0": 1}
+GROW = {"MessageBufReader::append_next_buf.0": 3}
+
 PROPS["C20"] = {
     "level": "model_checking",
     "files": [PU],
@@ -53,12 +63,17 @@ PROPS["C20"] = {
           ["common::protobuf_utils::write_varint64", "common::protobuf_utils::read_varint64_offset"], t_quick=300),
         H("c20", "k20_2_reader_window", "every content of a 10-byte window (the size read_len passes)",
           ["common::protobuf_utils::read_varint64"], t_quick=300),
-        H("c20", "k20_3_drain_small4", "every well-formed stream of <=10 bytes x every 3-way split; buffer 4 (growth exercised)",
-          ["MessageBufReader::{new_with_data,append_next_buf,next_message_vec,is_empty}"], t_quick=900),
-        H("c20", "k20_4_logscan_small4", "every well-formed stream of <=10 bytes x every 3-way split; buffer 4; log-scan protocol (is_empty after drain)",
-          ["MessageBufReader::{new_with_data,append_next_buf,next_message_vec,is_empty}"], t_quick=900),
-        H("c20", "k20_3_drain_small8", "streams <=12 bytes, buffer 8", ["MessageBufReader::*"], tier="thorough", t_quick=1800, t_thorough=3600),
-        H("c20", "k20_4_logscan_small8", "streams <=12 bytes, buffer 8, log-scan protocol", ["MessageBufReader::*"], tier="thorough", t_quick=1800, t_thorough=3600),
+        H("c20", "k20_3_drain_n8_c4_b8", "every well-formed 8-byte stream (record boundaries symbolic) read in 4-byte chunks into an 8-byte buffer; drain protocol",
+          ["MessageBufReader::{new_with_data,append_next_buf,next_message_vec,is_empty}", "move_data_to_start", "copy_data"], t_quick=900,
+          unwindset=NOGROW, group="nogrow", optional_covers=["is_empty() consulted with every delivered byte consumed"]),
+        H("c20", "k20_4_logscan_n8_c4_b8", "same streams; log-scan protocol (is_empty() consulted after each drain)",
+          ["MessageBufReader::{new_with_data,append_next_buf,next_message_vec,is_empty}"], t_quick=900, unwindset=NOGROW, group="nogrow"),
+        H("c20", "k20_3_drain_n8_c4_b4", "8-byte streams, 4-byte chunks, 4-byte buffer (buffer growth and the start>=len edge exercised)",
+          ["MessageBufReader::*", "capacity_expansion"], tier="thorough", t_quick=1800, t_thorough=3600, unwindset=GROW, group="grow"),
+        H("c20", "k20_4_logscan_n8_c4_b4", "8-byte streams, 4-byte chunks, 4-byte buffer; log-scan protocol",
+          ["MessageBufReader::*", "capacity_expansion"], tier="thorough", t_quick=1800, t_thorough=3600, unwindset=GROW, group="grow"),
+        H("c20", "k20_3_drain_n9_c3_b4", "9-byte streams, 3-byte chunks, 4-byte buffer", ["MessageBufReader::*"], tier="thorough", t_quick=1800, t_thorough=3600, unwindset=GROW, group="grow"),
+        H("c20", "k20_4_logscan_n9_c3_b4", "9-byte streams, 3-byte chunks, 4-byte buffer; log-scan protocol", ["MessageBufReader::*"], tier="thorough", t_quick=1800, t_thorough=3600, unwindset=GROW, group="grow"),
     ],
     "assumptions": [
         "std::backtrace::Backtrace::capture stubbed to Backtrace::disabled() (anyhow error construction otherwise walks getenv)",
@@ -66,4 +81,25 @@ PROPS["C20"] = {
     ],
     "outside": "records larger than the stream bound; the literal 1024-byte buffer (the boundary logic is size-parametric and is "
                "decided for buffers of 4 and 8 bytes through the public small-buffer constructor)",
+}
+
+def _c14(tier, seed):
+    from rs2smt import c14
+    return c14.run(tier, seed)
+
+
+PROPS["C14"] = {
+    "level": "model_checking",
+    "files": ["src/naming/cluster/node_manage.rs", "src/naming/cluster/model.rs"],
+    "smt": _c14,
+    "trusted_base": ["rs2smt: /verif/rs2smt/rsparse.py (parser for the Rust subset) and rseval.py (symbolic evaluator), validated on every run "
+                     "against the native build of the same functions (s14_translator_validation)", "z3 5.1.0"],
+    "assumptions": [
+        "Addr<InnerNodeManage>::send(msg).await is modelled as the result of the real Handler<NodeManageRequest>::handle arm for msg on the actor's state (mailbox errors outside)",
+        "DefaultHasher::finish() is an arbitrary u64 (all 2^64 values); Hash::hash is a no-op",
+        "all live nodes share one view (same membership and liveness); the local node is alive in its own view",
+        "integer casts between usize/u64 are identities (64-bit target)",
+    ],
+    "outside": "the 15 s liveness timer that flips node status; views that differ between nodes; cluster sizes above 5 (3 in the quick tier)",
+    "explanation": "bounded symbolic execution of the real source (concrete cluster size, symbolic liveness and hash) + SMT",
 }
